@@ -512,6 +512,8 @@ func genCases(seed uint64, quick bool) []*Case {
 			add(c)
 		}
 	}
+	// I. parser-level cases
+	genParserCases(r, quick, add)
 	return out
 }
 
